@@ -1392,7 +1392,10 @@ def opC07GlobID : List String → Res
     | [gh, phs] => (match unhex gh with
       | some glob =>
         let paths := ((phs.splitOn ",").filter (· ≠ "")).filterMap unhex
-        let ids := paths.map fun p => (p, match makeGlobID p glob with | .ok id => hexOf id | .err e => "ERR " ++ e | .panic w => "PANIC " ++ w)
+        -- the hand model and the translated function (tie G) must agree; the harness compares both with the real session
+        let ids := paths.map fun p => (p, match makeGlobID p glob with
+          | .ok id => if (Gen.Handlers.readCommand.makeGlobID genExt {} p glob).2 = id then hexOf id else "TRANSLATED-DIFFERS"
+          | .err e => "ERR " ++ e | .panic w => "PANIC " ++ w)
         let m := if ids.isEmpty then "-" else joinWith "|" (ids.map fun (p, id) => hexOf p ++ "=" ++ id)
         let distinct := (ids.map (·.2)).eraseDups.length = ids.length
         let parts := splitOnByte SLASH glob
